@@ -1,4 +1,5 @@
 import Xp.Proofs.C19Final
+import Xp.Proofs.C19Owner
 import Xp.Gen.C19
 /-
 C19 — an in-use resource cannot be deleted; protection ends exactly when use ends.
@@ -448,6 +449,158 @@ theorem composer_keeps_owner_refs (s : Store) (hs : StoreInv s) (nm c : String) 
         have hnil : x.owners = [] := by simpa using hne
         intro y _ _ o ho
         rw [hnil] at ho; cases ho
+
+/-! ### ownership is by uid: the Usage is owned by the CURRENT using resource -/
+
+/-- **owned_by_current_user.** For EVERY number of workers, schedule and fault plan: take any
+reachable state in which no reconcile of Usage `n` is in flight, and any continuation `bs`
+followed by an API call of the reconcile of `n` that makes it return successfully ("poll") — so a
+whole reconcile of `n` lies inside `bs`, interleaved at API-call granularity with anything else
+(other reconciles, users, GC, the composer, faults). If throughout that continuation the Usage `n`
+is the same object (uid `V`) naming `b` as its user and the resource `b` refers to is the same
+object (uid `U`) — the Usage and its user exist throughout — then afterwards the stored Usage
+carries an owner reference whose uid is `U`, the CURRENT uid of the stored using resource.
+(`owned_by_using` only says the uid once belonged to a resource of that name: a reference with the
+right name and the uid of an earlier incarnation is dangling for the garbage collector.) -/
+theorem owned_by_current_user (maxc : Nat) (as bs : List Action) (o : Outcome) (hfresh : listFresh (as ++ bs))
+    (n : String) (V : Nat) (b : RSpec) (U : Nat) (req : Req) (reply : Option Resp)
+    (hidle : ((Sys.init maxc).run as).thread? n = none)
+    (hheld : Along (Held n V b U) ((Sys.init maxc).run as) (bs ++ [.step n o none]))
+    (hpoll : ((((Sys.init maxc).run as).run bs).exec (.step n o none)).2 = .call req reply (some .poll)) :
+    ∃ y ∈ ((((Sys.init maxc).run as).run bs).exec (.step n o none)).1.store.usages,
+      y.name = n ∧ y.uid = V ∧ y.by_ = some b ∧
+      ∃ g, ((((Sys.init maxc).run as).run bs).exec (.step n o none)).1.store.getR (groupOf b.av) b.kind b.name = some g ∧
+        g.uid = U ∧ ∃ ow ∈ y.owners, ow.uid = g.uid := by
+  have hfa : listFresh as := fun a ha => hfresh a (List.mem_append_left _ ha)
+  have hfb : listFresh bs := fun a ha => hfresh a (List.mem_append_right _ ha)
+  have hinv0 : SysInv ((Sys.init maxc).run as) := (SysInv.init maxc).run as hfa
+  generalize (Sys.init maxc).run as = s0 at hinv0 hidle hheld hpoll ⊢
+  obtain ⟨hb, hpre, hpost⟩ := hheld.append
+  have trk := trk_run hinv0 bs hfb hb (Trk.of_none hidle)
+  have hinv1 : SysInv (s0.run bs) := hinv0.run bs hfb
+  have hinv2 : SysInv ((s0.run bs).exec (.step n o none)).1 := hinv1.exec _ rfl
+  obtain ⟨y, hy, hyn, ow, how, hou⟩ := trk_final hinv1 o hpre hpost trk req reply hpoll
+  obtain ⟨⟨y1, hy1, h1n, h1u, h1b⟩, huser⟩ := hpost
+  have : y1 = y := hinv2.store.usageUniq y1 hy1 y hy (h1n.trans hyn.symm)
+  subst this
+  cases hg : ((s0.run bs).exec (.step n o none)).1.store.getR (groupOf b.av) b.kind b.name with
+  | none => rw [hg] at huser; cases huser
+  | some g =>
+    rw [hg] at huser
+    have hgu : g.uid = U := by simpa using huser
+    exact ⟨y1, hy1, h1n, h1u, h1b, g, rfl, hgu, ow, how, hou.trans hgu.symm⟩
+
+/-- the Kubernetes GC does not collect a Usage one of whose owner references carries the uid of a
+live object: the visit changes nothing -/
+theorem gc_spares_usage_with_live_owner (s : Store) (nm : String) (x : Usage) (hg : s.getU nm = some x)
+    (ow : OwnerRef) (how : ow ∈ x.owners) (halive : s.alive ow.uid = true) : s.gcUsage nm = (s, .owned) := by
+  have hne : x.owners ≠ [] := fun h => by rw [h] at how; cases how
+  have hany : (x.owners.any fun o => s.alive o.uid) = true := List.any_eq_true.mpr ⟨ow, how, halive⟩
+  unfold Store.gcUsage
+  simp only [hg, hne, if_false, hany, if_true]
+
+/-- **not_collected_while_user_exists.** Under the hypotheses of `owned_by_current_user`, a GC
+step right after the reconcile finds the Usage owned and leaves the whole system unchanged: the
+Usage is not collected while its user exists. -/
+theorem not_collected_while_user_exists (maxc : Nat) (as bs : List Action) (o : Outcome)
+    (hfresh : listFresh (as ++ bs)) (n : String) (V : Nat) (b : RSpec) (U : Nat) (req : Req) (reply : Option Resp)
+    (hidle : ((Sys.init maxc).run as).thread? n = none)
+    (hheld : Along (Held n V b U) ((Sys.init maxc).run as) (bs ++ [.step n o none]))
+    (hpoll : ((((Sys.init maxc).run as).run bs).exec (.step n o none)).2 = .call req reply (some .poll)) :
+    (((((Sys.init maxc).run as).run bs).exec (.step n o none)).1.exec (.gcU n)) =
+      (((((Sys.init maxc).run as).run bs).exec (.step n o none)).1, .gc .owned) := by
+  obtain ⟨y, hy, hyn, _, _, g, hg, _, ow, how, hou⟩ :=
+    owned_by_current_user maxc as bs o hfresh n V b U req reply hidle hheld hpoll
+  have hfa : listFresh as := fun a ha => hfresh a (List.mem_append_left _ ha)
+  have hfb : listFresh bs := fun a ha => hfresh a (List.mem_append_right _ ha)
+  have hinv : SysInv ((((Sys.init maxc).run as).run bs).exec (.step n o none)).1 :=
+    ((((SysInv.init maxc).run as hfa).run bs hfb).exec _ rfl)
+  generalize ((((Sys.init maxc).run as).run bs).exec (.step n o none)).1 = post at hy hg hinv ⊢
+  have hgu : post.store.getU n = some y := by
+    cases hx : post.store.getU n with
+    | none => exact absurd hyn (getU_none hx y hy)
+    | some x =>
+      have hx' := getU_some hx
+      rw [hinv.store.usageUniq x hx'.1 y hy (hx'.2.trans hyn.symm)]
+  have halive : post.store.alive ow.uid = true := by
+    unfold Store.alive
+    have : post.store.res.any (fun r => r.uid == ow.uid) = true :=
+      List.any_eq_true.mpr ⟨g, (getR_some hg).1, by simp [hou]⟩
+    simp [this]
+  simp only [Sys.exec, gc_spares_usage_with_live_owner post.store n y hgu ow how halive]
+
+/-- **used_protected_while_user_exists** (end to end, MaxConcurrentReconciles = 1). Under the
+hypotheses of `owned_by_current_user`, after the reconcile and a GC step the Usage is still stored
+as the same object, and — if it is ready and its deletion was not requested — every delete
+request for the used resource (any API version of the group, any propagation policy) is denied and
+recorded, the resource stays and keeps the label. -/
+theorem used_protected_while_user_exists (as bs : List Action) (o : Outcome) (hfresh : listFresh (as ++ bs))
+    (n : String) (V : Nat) (b : RSpec) (U : Nat) (req : Req) (reply : Option Resp)
+    (hidle : ((Sys.init 1).run as).thread? n = none)
+    (hheld : Along (Held n V b U) ((Sys.init 1).run as) (bs ++ [.step n o none]))
+    (hpoll : ((((Sys.init 1).run as).run bs).exec (.step n o none)).2 = .call req reply (some .poll)) :
+    let s := ((Sys.init 1).run (as ++ bs ++ [.step n o none, .gcU n])).store
+    (∃ u ∈ s.usages, u.name = n ∧ u.uid = V) ∧
+    ∀ u ∈ s.usages, u.name = n → u.ready = true → u.deleting = false →
+      ∀ reqAv p, groupOf reqAv = groupOf u.of.av →
+        (s.deleteRes (groupOf reqAv) u.of.kind u.of.name p true true none).2 = .done true .denied ∧
+        (∃ r ∈ (s.deleteRes (groupOf reqAv) u.of.kind u.of.name p true true none).1.res, u.names r = true) ∧
+        ∀ r ∈ (s.deleteRes (groupOf reqAv) u.of.kind u.of.name p true true none).1.res, u.names r = true → r.inUse = true := by
+  intro s
+  have hrun : (Sys.init 1).run (as ++ bs ++ [.step n o none, .gcU n]) =
+      (((((Sys.init 1).run as).run bs).exec (.step n o none)).1.exec (.gcU n)).1 := by
+    rw [run_append, run_append]; rfl
+  have hsame := not_collected_while_user_exists 1 as bs o hfresh n V b U req reply hidle hheld hpoll
+  have hfr : listFresh (as ++ bs ++ [.step n o none, .gcU n]) := by
+    intro a ha
+    rcases List.mem_append.mp ha with h | h
+    · exact hfresh a h
+    · simp only [List.mem_cons, List.mem_nil_iff, or_false] at h
+      rcases h with rfl | rfl <;> rfl
+  constructor
+  · obtain ⟨y, hy, hyn, hyu, _⟩ := owned_by_current_user 1 as bs o hfresh n V b U req reply hidle hheld hpoll
+    refine ⟨y, ?_, hyn, hyu⟩
+    show y ∈ ((Sys.init 1).run (as ++ bs ++ [.step n o none, .gcU n])).store.usages
+    rw [hrun, hsame]; exact hy
+  · intro u hu _ hr hd reqAv p hgrp
+    have key := delete_refused_while_ready _ hfr u hu hr hd reqAv p true true hgrp
+    exact ⟨(key.2 rfl rfl).1, key.1.1, key.1.2⟩
+
+/-- a concrete replacement: Usage u0 of r0 by r1 becomes ready (owned by r1, uid 2); r1 is deleted
+and re-created under the same name (uid 4) -/
+def replaceSchedule : List Action := [
+  .cr "ex.org" "Thing" "r0" [] false "",
+  .cr "ex.org" "Other" "r1" [] false "",
+  .cu "u0" ⟨"ex.org/v1", "Thing", "r0", none⟩ (some ⟨"ex.org/v1", "Other", "r1", none⟩) none false "",
+  .start "u0", .step "u0" .ok none, .step "u0" .ok none, .step "u0" .ok none, .step "u0" .ok none,
+  .step "u0" .ok none, .step "u0" .ok none, .step "u0" .ok none, .step "u0" .ok none,
+  .dr "ex.org" "Other" "r1" "" true true none,
+  .cr "ex.org" "Other" "r1" [] false ""]
+
+/-- the next poll of u0 up to (not including) its last API call -/
+def pollSchedule : List Action := [
+  .start "u0", .step "u0" .ok none, .step "u0" .ok none, .step "u0" .ok none, .step "u0" .ok none,
+  .step "u0" .ok none]
+
+/-- the hypotheses of `owned_by_current_user` are satisfiable: no reconcile in flight, the Usage
+(uid 3) and the new r1 (uid 4) exist throughout the poll, the poll returns "poll" -/
+example : ((Sys.init 1).run replaceSchedule).thread? "u0" = none := by decide
+
+example : Along (Held "u0" 3 ⟨"ex.org/v1", "Other", "r1", none⟩ 4) ((Sys.init 1).run replaceSchedule)
+    (pollSchedule ++ [.step "u0" .ok none]) := by decide
+
+example : (match ((((Sys.init 1).run replaceSchedule).run pollSchedule).exec (.step "u0" .ok none)).2 with
+    | .call _ _ (some .poll) => true
+    | _ => false) = true := by decide
+
+/-- before that poll the Usage's only owner reference is dangling (right name, uid of the deleted
+r1): a GC visit at that moment collects the Usage although a resource named r1 exists — which is
+why the reconcile must compare uids, not names -/
+example : (((Sys.init 1).run replaceSchedule).store.gcUsage "u0").2 = .deletedUsage := by decide
+
+/-- after the poll the GC finds it owned -/
+example : (((((Sys.init 1).run replaceSchedule).run pollSchedule).exec (.step "u0" .ok none)).1.store.gcUsage "u0").2 =
+    .owned := by decide
 
 /-! ### the marker clauses fail for two overlapping reconciles (defect D16) -/
 
